@@ -92,6 +92,12 @@ func c04Family(name string, n int) string {
 		return "SELECT x FROM m WHERE " + rep("(", n) + "a = 1" + rep(")", n)
 	case "call":
 		return "SELECT " + rep("f(", n) + "x" + rep(")", n) + " FROM m"
+	case "fill_paren": // the parser itself prints the fill argument (parseFill)
+		return "SELECT mean(x) FROM m GROUP BY time(1m) fill(" + rep("(", n) + "0" + rep(")", n) + ")"
+	case "time_paren": // ... and inspects the time() dimension of a continuous query
+		return "CREATE CONTINUOUS QUERY q ON d BEGIN SELECT mean(x) INTO t FROM m GROUP BY time(" + rep("(", n) + "1m" + rep(")", n) + ") END"
+	case "arg_paren":
+		return "SELECT percentile(x, " + rep("(", n) + "90" + rep(")", n) + ") FROM m GROUP BY time(1m, " + rep("(", n) + "1s" + rep(")", n) + ")"
 	case "subquery":
 		return rep("SELECT x FROM (", n) + "SELECT x FROM m" + rep(")", n)
 	case "neg":
